@@ -20,6 +20,11 @@
 //!  `precondition-file-loads` (a document of provenance file:<layout> could not be set up: the file written here did not load, or not
 //!  with the objects written - the reader's matter, reported so that the case does not pass vacuously), `mem-compressed-objstm-restored`
 //!  (in memory round trip returned a Flate-compressed /Type /ObjStm stream decoded: same data, other bytes; one name whatever the password).
+//!  `metadata-stream-dict-string-encrypted` (a string in the dictionary of the Metadata stream while EncryptMetadata is false: the exemption
+//!  covers the stream's data, the string is a string of the file, ISO 7.6.2), `<mem|reload>-edit-reverted` (document with a
+//!  history: an object that was changed between load and encrypt came back from decrypt as it was when loaded, not as it was encrypted) and
+//!  `...-deleted-object-back` (an object removed between load and encrypt is in the document again after decrypt); an edited object that
+//!  comes back as anything else fails under the plain `...-restores`.
 //!  Panics are caught per call (`catch`, with a silent hook installed once for the whole run because cases run on rayon
 //!  threads) and reported as `no-panic`.
 //!
@@ -99,10 +104,13 @@ struct DocS {
     /// where the `Document` comes from: "built" (objects inserted into a fresh `Document`) or "file:<layout>" (a PDF 1.5 file with
     /// these objects is written by `write_file` and loaded with `Document::load_mem`; the loaded document is the original)
     origin: String,
+    /// what was done to the document between `build_doc`'s construction / load and `encrypt`: "" (nothing) or one of `EDITS`
+    /// (the history dimension: the ORIGINAL of the round trip is the edited document)
+    edit: String,
 }
 
 fn doc_json(d: &DocS) -> Value {
-    json!({"label": d.label, "has_id": d.has_id, "slack": d.slack, "reload": d.reload, "origin": d.origin,
+    json!({"label": d.label, "has_id": d.has_id, "slack": d.slack, "reload": d.reload, "origin": d.origin, "edit": d.edit,
            "objects": d.objects.iter().map(|(id, o)| json!({"id": id.0, "gen": id.1, "obj": obj_json(o)})).collect::<Vec<_>>()})
 }
 
@@ -115,13 +123,24 @@ fn doc_from_json(v: &Value) -> DocS {
         slack: v["slack"].as_u64().unwrap_or(0) as u32,
         reload: v["reload"].as_bool().unwrap_or(true),
         origin: v["origin"].as_str().unwrap_or("built").into(),
+        edit: v["edit"].as_str().unwrap_or("").into(),
     }
 }
 
 const ID0: &[u8] = b"\x00\x01\x02\xfd\xfe\xff(id-0)\r\n\\";
 const ID1: &[u8] = b"second-id-16byte";
 
-fn build_doc(s: &DocS) -> Result<Document, String> {
+/// The document of `s` as it is right before `encrypt` (the original of the round trip) and, if `s` has an edit, the document as it
+/// was before the edit (used only to word a failure: "came back as it was when loaded").
+fn build_doc(s: &DocS) -> Result<(Document, Option<Document>), String> {
+    let d = build_unedited(s)?;
+    if s.edit.is_empty() { return Ok((d, None)); }
+    let mut e = d.clone();
+    apply_edit(&mut e, &s.edit)?;
+    Ok((e, Some(d)))
+}
+
+fn build_unedited(s: &DocS) -> Result<Document, String> {
     if let Some(layout) = s.origin.strip_prefix("file:") { return load_file_doc(s, layout); }
     let mut d = Document::with_version("1.7");
     let mut maxid = 0;
@@ -336,6 +355,72 @@ fn load_file_doc(s: &DocS, layout: &str) -> Result<Document, String> {
     Ok(d)
 }
 
+// ---------------------------------------------------------------------------------------------------------------
+// documents with a history (the edit dimension)
+// ---------------------------------------------------------------------------------------------------------------
+//
+// "Every document" is every state a `Document` can be in when `encrypt` is called.  A program that loads a file usually changes the
+// document before it encrypts it, and a loaded document carries state next to `objects` that the edit does not touch: the object
+// streams of the file still hold the objects as they were in the file, `reference_table` still says which object lives in which
+// container.  The original of the round trip is the document as it is right before `encrypt`, i.e. AFTER the edit: every string and
+// stream must come back as edited, removed objects must stay removed, added objects must stay.
+// An edit works on the objects of the document that are not file structure (ObjStm / XRef / Linearized), numbered k = 0, 1, .. in id order.
+
+/// strings: every string of every object gets another value of another length (also in stream dictionaries), every stream another content;
+/// strings-alt: the same for the objects of odd k only (edited and untouched objects side by side, also inside one object stream);
+/// replace: every object of even k is replaced by a new dictionary that holds a string (the kind of the object changes);
+/// delete: every object with k divisible by 3 is removed from `objects`;
+/// add: two new objects are added with `Document::add_object` (a dictionary with strings, a stream with a string in its dictionary)
+const EDITS: &[&str] = &["strings", "strings-alt", "replace", "delete", "add"];
+
+fn edited_value(b: &[u8]) -> Vec<u8> {
+    let mut v = b"edited:".to_vec();
+    v.extend(b.iter().rev());
+    v
+}
+
+fn edit_strings(o: &mut Object) {
+    match o {
+        Object::String(b, _) => *b = edited_value(b),
+        Object::Array(a) => a.iter_mut().for_each(edit_strings),
+        Object::Dictionary(d) => d.iter_mut().for_each(|(_, v)| edit_strings(v)),
+        Object::Stream(s) => {
+            s.dict.iter_mut().for_each(|(_, v)| edit_strings(v));
+            let c = edited_value(&s.content);
+            s.set_content(c);
+        }
+        _ => {}
+    }
+}
+
+fn apply_edit(d: &mut Document, edit: &str) -> Result<(), String> {
+    let ids: Vec<(u32, u16)> = d.objects.iter().filter(|(_, o)| !is_bookkeeping_object(o)).map(|(id, _)| *id).collect();
+    match edit {
+        "strings" | "strings-alt" => {
+            for (k, id) in ids.iter().enumerate() {
+                if edit == "strings" || k % 2 == 1 { if let Some(o) = d.objects.get_mut(id) { edit_strings(o); } }
+            }
+        }
+        "replace" => {
+            for (k, id) in ids.iter().enumerate() {
+                if k % 2 == 0 {
+                    let note = format!("object {} {} was replaced after the document was set up", id.0, id.1);
+                    d.objects.insert(*id, Object::Dictionary(dict(vec![(b"Replaced", lit(note.as_bytes())), (b"K", Object::Integer(k as i64))])));
+                }
+            }
+        }
+        "delete" => {
+            for (k, id) in ids.iter().enumerate() { if k % 3 == 0 { d.objects.remove(id); } }
+        }
+        "add" => {
+            d.add_object(Object::Dictionary(dict(vec![(b"Title", lit(b"a dictionary added after loading")), (b"A", Object::Array(vec![hexs(&pat(17, 60)), lit(b"")]))])));
+            d.add_object(Object::Stream(Stream::new(dict(vec![(b"Note", lit(b"a stream added after loading"))]), pat(40, 61))));
+        }
+        other => return Err(format!("unknown edit {:?}", other)),
+    }
+    Ok(())
+}
+
 fn pat(n: usize, seed: u8) -> Vec<u8> { (0..n).map(|i| (i as u8).wrapping_mul(37).wrapping_add(seed)).collect() }
 
 fn crypt_stream(name: Option<&str>, parms: bool, array_form: bool, content: Vec<u8>) -> Object {
@@ -413,7 +498,29 @@ fn alphabet(h: &Handler) -> Vec<(String, Object)> {
         v.push((format!("crypt-{}", n), crypt_stream(Some(n), true, i % 2 == 1, pat(32, 40 + i as u8))));
         v.push((format!("crypt-{}-empty", n), crypt_stream(Some(n), true, false, vec![])));
     }
+    // the stream-dictionary dimension: a string in a stream's dictionary is a string of the document whatever rule governs the stream's
+    // data, so one stream of EVERY class of that rule (default filter, exempt Metadata, exempt XRef, object stream, each /Crypt override)
+    // also occurs with strings in its dictionary, direct and nested (appended last: the ids of the whole-alphabet document stay as they were)
+    let mut classes: Vec<String> = ["stream-300-binary", "metadata-stream", "xref-typed-stream", "objstm-2-objects", "crypt-no-name", "crypt-unknown-name", "crypt-no-parms"].iter().map(|x| x.to_string()).collect();
+    classes.extend(names.iter().map(|n| format!("crypt-{}", n)));
+    for c in classes {
+        let o = v.iter().find(|x| x.0 == c).map(|x| x.1.clone()).expect("class representative");
+        v.push((format!("{}+dict-strings", c), with_dict_strings(o)));
+    }
     v
+}
+
+/// the stream with three more entries in its dictionary: a literal string, and an array holding a hexadecimal string and a dictionary with
+/// a literal and an empty string
+fn with_dict_strings(o: Object) -> Object {
+    match o {
+        Object::Stream(mut s) => {
+            s.dict.set("Note", lit(b"a note of 29 bytes in the dict"));
+            s.dict.set("Notes", Object::Array(vec![hexs(&pat(18, 7)), Object::Dictionary(dict(vec![(b"K", lit(b"nested, 21 bytes long")), (b"E", lit(b""))])), Object::Integer(3)]));
+            Object::Stream(s)
+        }
+        other => other,
+    }
 }
 
 const SINGLE_IDS_QUICK: &[(u32, u16)] = &[(7, 3)];
@@ -421,35 +528,56 @@ const SINGLE_IDS_THOROUGH: &[(u32, u16)] = &[(1, 0), (7, 3), (300, 65535)];
 
 /// documents of family A: every alphabet object alone (at each id of the tier), one alphabet object at a large id
 /// (in memory only), and the document that holds the whole alphabet at sparse ids (with and, for R5/V5, without /ID)
-fn docs_a(h: &Handler, ids: &[(u32, u16)], all_layouts: bool) -> Vec<DocS> {
+fn docs_a(h: &Handler, ids: &[(u32, u16)], all_layouts: bool, anchor: bool, edits: bool) -> Vec<DocS> {
     let al = alphabet(h);
     let mut out = vec![];
     for (k, (label, o)) in al.iter().enumerate() {
         for id in ids {
-            out.push(DocS { label: format!("single:{}@{}.{}", label, id.0, id.1), objects: vec![(*id, o.clone())], has_id: true, slack: (k % 3) as u32, reload: true, origin: "built".into() });
+            out.push(DocS { label: format!("single:{}@{}.{}", label, id.0, id.1), objects: vec![(*id, o.clone())], has_id: true, slack: (k % 3) as u32, reload: true, origin: "built".into(), edit: String::new() });
         }
     }
-    out.push(DocS { label: "single:lit-33@16777221.1".into(), objects: vec![((16777221, 1), al[6].1.clone())], has_id: true, slack: 0, reload: false, origin: "built".into() });
-    let full: Vec<((u32, u16), Object)> = al.iter().enumerate().map(|(k, (_, o))| (((2 * k + 1 + (k / 5) * 7) as u32, if k % 4 == 3 { 2 } else { 0 }), o.clone())).collect();
-    out.push(DocS { label: "full".into(), objects: full.clone(), has_id: true, slack: 2, reload: true, origin: "built".into() });
+    out.push(DocS { label: "single:lit-33@16777221.1".into(), objects: vec![((16777221, 1), al[6].1.clone())], has_id: true, slack: 0, reload: false, origin: "built".into(), edit: String::new() });
+    let full = full_objects(&al);
+    out.push(DocS { label: "full".into(), objects: full.clone(), has_id: true, slack: 2, reload: true, origin: "built".into(), edit: String::new() });
     if !h.legacy() {
-        out.push(DocS { label: "full-no-id".into(), objects: full.clone(), has_id: false, slack: 0, reload: true, origin: "built".into() });
+        out.push(DocS { label: "full-no-id".into(), objects: full.clone(), has_id: false, slack: 0, reload: true, origin: "built".into(), edit: String::new() });
     }
     // the provenance dimension: the same objects in a PDF 1.5 file of every layout, loaded with load_mem
     for layout in LAYOUTS {
-        out.push(DocS { label: format!("file:{}/full", layout), objects: full.clone(), has_id: true, slack: 0, reload: true, origin: format!("file:{}", layout) });
+        out.push(DocS { label: format!("file:{}/full", layout), objects: full.clone(), has_id: true, slack: 0, reload: true, origin: format!("file:{}", layout), edit: String::new() });
     }
     if !h.legacy() {
-        out.push(DocS { label: "file:objstm/full-no-id".into(), objects: full, has_id: false, slack: 0, reload: true, origin: "file:objstm".into() });
+        out.push(DocS { label: "file:objstm/full-no-id".into(), objects: full, has_id: false, slack: 0, reload: true, origin: "file:objstm".into(), edit: String::new() });
     }
     // every alphabet object alone at id 7 0 (generation 0: it may live in an object stream)
     let single_layouts: &[&str] = if all_layouts { LAYOUTS } else { &["objstm"] };
     for (label, o) in al.iter() {
         for layout in single_layouts {
-            out.push(DocS { label: format!("file:{}/single:{}@7.0", layout, label), objects: vec![((7, 0), o.clone())], has_id: true, slack: 0, reload: true, origin: format!("file:{}", layout) });
+            out.push(DocS { label: format!("file:{}/single:{}@7.0", layout, label), objects: vec![((7, 0), o.clone())], has_id: true, slack: 0, reload: true, origin: format!("file:{}", layout), edit: String::new() });
+        }
+    }
+    // the edit dimension: the whole-alphabet document loaded from a file and then changed by every edit, before encrypt
+    // (anchor configuration: in every layout; other configurations with the permission set `all`: layout objstm; the permission word
+    // does not take part in what encrypt and decrypt do to an object)
+    let edit_layouts: &[&str] = if anchor { LAYOUTS } else if edits { &["objstm"] } else { &[] };
+    for layout in edit_layouts {
+        for e in EDITS {
+            out.push(DocS { label: format!("file:{}/full+edit:{}", layout, e), objects: full_objects(&al), has_id: true, slack: 0, reload: true, origin: format!("file:{}", layout), edit: e.to_string() });
+        }
+    }
+    // ... and (thorough) every alphabet object alone at id 7 0 in layout objstm, loaded and then changed by the edits that keep it
+    if anchor && all_layouts {
+        for (label, o) in al.iter() {
+            for e in ["strings", "replace"] {
+                out.push(DocS { label: format!("file:objstm/single:{}@7.0+edit:{}", label, e), objects: vec![((7, 0), o.clone())], has_id: true, slack: 0, reload: true, origin: "file:objstm".into(), edit: e.to_string() });
+            }
         }
     }
     out
+}
+
+fn full_objects(al: &[(String, Object)]) -> Vec<((u32, u16), Object)> {
+    al.iter().enumerate().map(|(k, (_, o))| (((2 * k + 1 + (k / 5) * 7) as u32, if k % 4 == 3 { 2 } else { 0 }), o.clone())).collect()
 }
 
 /// family B (thorough): all ordered pairs of alphabet objects as a two-object document
@@ -458,7 +586,7 @@ fn docs_b(h: &Handler) -> Vec<DocS> {
     let mut out = vec![];
     for (la, a) in &al {
         for (lb, b) in &al {
-            out.push(DocS { label: format!("pair:{}+{}", la, lb), objects: vec![((2, 0), a.clone()), ((9, 1), b.clone())], has_id: true, slack: 0, reload: true, origin: "built".into() });
+            out.push(DocS { label: format!("pair:{}+{}", la, lb), objects: vec![((2, 0), a.clone()), ((9, 1), b.clone())], has_id: true, slack: 0, reload: true, origin: "built".into(), edit: String::new() });
         }
     }
     out
@@ -666,7 +794,7 @@ fn check_cipher(exp: Exp, plain: &[u8], cipher: &[u8], what: &str, ob_override: 
 }
 
 #[derive(Clone, Copy)]
-struct Ctx { in_stream_dict: bool, in_meta_dict: bool }
+struct Ctx { in_stream_dict: bool, in_meta_dict: bool, in_clear_meta_stream_dict: bool }
 
 /// parallel walk of the original and the encrypted object
 fn walk_enc(h: &Handler, o: &Object, e: &Object, ctx: Ctx, path: &str, f: &mut Fails) {
@@ -674,7 +802,7 @@ fn walk_enc(h: &Handler, o: &Object, e: &Object, ctx: Ctx, path: &str, f: &mut F
         (Object::String(p, pf), Object::String(c, cf)) => {
             if pf != cf { push(f, "non-string-unchanged", format!("{}: string format changed", path)); }
             // ISO 7.6.2: every string of the file is encrypted except /ID, the strings of the Encrypt dictionary and strings inside streams
-            let ob = if ctx.in_stream_dict { Some("stream-dict-string-encrypted") } else if ctx.in_meta_dict { Some("metadata-dict-string-encrypted") } else { None };
+            let ob = if ctx.in_clear_meta_stream_dict { Some("metadata-stream-dict-string-encrypted") } else if ctx.in_stream_dict { Some("stream-dict-string-encrypted") } else if ctx.in_meta_dict { Some("metadata-dict-string-encrypted") } else { None };
             check_cipher(model_string(h), p, c, &format!("string at {}", path), ob, f);
         }
         (Object::Array(a), Object::Array(b)) => {
@@ -690,7 +818,9 @@ fn walk_enc(h: &Handler, o: &Object, e: &Object, ctx: Ctx, path: &str, f: &mut F
                 if a.dict != b.dict || a.content != b.content { push(f, "identity-or-exempt-unchanged", format!("{}: cross-reference stream was changed by encrypt", path)); }
                 return;
             }
-            walk_dict(h, &a.dict, &b.dict, Ctx { in_stream_dict: true, ..ctx }, path, &[b"Length"], f);
+            // EncryptMetadata false exempts the data of the Metadata stream (ISO 32000-2 table 20: "whether the document-level metadata stream
+            // shall be encrypted"); the strings of its dictionary are strings of the file (7.6.2) - their own obligation name
+            walk_dict(h, &a.dict, &b.dict, Ctx { in_stream_dict: true, in_clear_meta_stream_dict: is_type(&a.dict, b"Metadata") && !h.em, ..ctx }, path, &[b"Length"], f);
             match b.dict.get(b"Length") {
                 Ok(Object::Integer(n)) if *n == b.content.len() as i64 => {}
                 other => push(f, "ciphertext-shape", format!("{}: /Length {:?} after encrypt, content has {} bytes", path, other.ok(), b.content.len())),
@@ -726,7 +856,7 @@ fn diff_obj(a: &Object, b: &Object, strict: bool, path: &str) -> Option<String> 
         }
         (Object::Dictionary(x), Object::Dictionary(y)) => diff_dict(x, y, strict, path, &[]),
         (Object::Stream(x), Object::Stream(y)) => {
-            if let Some(d) = diff_dict(&x.dict, &y.dict, strict, path, &[]) { return Some(d); }
+            if let Some(d) = diff_dict(&x.dict, &y.dict, strict, path, &[]) { return Some(format!("in the dictionary of the stream {}: {}", path, d)); }
             if x.content != y.content { return Some(format!("stream at {} was not restored byte for byte: expected {} bytes {}, got {} bytes {}", path, x.content.len(), short_hex(&x.content), y.content.len(), short_hex(&y.content))); }
             None
         }
@@ -783,7 +913,12 @@ fn is_decoded_objstm(o: &Object, r: &Object) -> bool {
 fn short_hex(b: &[u8]) -> String { if b.len() <= 24 { hex(b) } else { format!("{}..", hex(&b[..24])) } }
 
 /// the decrypted document `d` must be the original: no /Encrypt, no encryption dictionary object, all objects and the trailer as before
-fn check_restored(orig: &Document, d: &Document, enc_id: Option<(u32, u16)>, strict: bool, tag: &str, f: &mut Fails) {
+/// `pre`: for a document with an edit, the document before the edit - it decides the NAME of a failure only (an object that comes back
+/// as it was before the edit, `<mem|reload>-edit-reverted` / `-deleted-object-back`, is told apart from one that comes back as something else)
+fn check_restored(orig: &Document, pre: Option<&Document>, d: &Document, enc_id: Option<(u32, u16)>, strict: bool, tag: &str, f: &mut Fails) {
+    let same = |a: &Object, b: &Object| if strict { a == b } else { obj_eq(a, b) };
+    // one cause, one name whatever the password class in `tag`
+    let route = if tag.starts_with("reload") { "reload" } else { "mem" };
     if d.trailer.get(b"Encrypt").is_ok() { push(f, &format!("{}-encrypt-dict-removed", tag), "trailer still has /Encrypt after a successful decrypt".into()); }
     if let Some(id) = enc_id { if d.objects.contains_key(&id) && !orig.objects.contains_key(&id) { push(f, &format!("{}-encrypt-dict-removed", tag), format!("encryption dictionary object {} {} is still in the document", id.0, id.1)); } }
     let skip = |o: &Object| !strict && is_bookkeeping_object(o);
@@ -794,13 +929,19 @@ fn check_restored(orig: &Document, d: &Document, enc_id: Option<(u32, u16)>, str
             Some(r) => if let Some(df) = diff_obj(o, r, strict, &obj_path(id, o)) {
                 // one cause, one name (whatever the password class in `tag`): see `is_decoded_objstm`
                 if strict && is_decoded_objstm(o, r) { push(f, "mem-compressed-objstm-restored", format!("the Flate-compressed object stream {} came back from encrypt + decrypt decoded ({} bytes instead of {}, /Filter removed): the same data, but not the stream byte for byte ({})", obj_path(id, o), match r { Object::Stream(x) => x.content.len(), _ => 0 }, match o { Object::Stream(x) => x.content.len(), _ => 0 }, df)); }
+                else if pre.and_then(|p| p.objects.get(id)).map(|p| same(p, r)).unwrap_or(false) {
+                    push(f, &format!("{}-edit-reverted", route), format!("{}: object {} was changed after the document was loaded and before encrypt; decrypt returned it as it was when loaded (the copy kept in the file's object stream?), not as it was encrypted: {}", tag, obj_path(id, o), df));
+                }
                 else { push(f, &format!("{}-restores", tag), df); }
             },
         }
     }
     for (id, o) in &d.objects {
         if skip(o) || Some(*id) == enc_id { continue; }
-        if !orig.objects.contains_key(id) { push(f, &format!("{}-restores", tag), format!("unexpected object {} {} after decrypt: {:?}", id.0, id.1, o)); }
+        if !orig.objects.contains_key(id) {
+            if pre.map(|p| p.objects.contains_key(id)).unwrap_or(false) { push(f, &format!("{}-deleted-object-back", route), format!("{}: object {} was removed from the document after loading and before encrypt; after decrypt it is in the document again: {:?}", tag, obj_path(id, o), o)); }
+            else { push(f, &format!("{}-restores", tag), format!("unexpected object {} {} after decrypt: {:?}", id.0, id.1, o)); }
+        }
     }
     let ignore: Vec<&[u8]> = if strict { vec![b"Encrypt"] } else { let mut v = BOOKKEEPING.to_vec(); v.push(b"Encrypt"); v };
     if let Some(df) = diff_dict(&orig.trailer, &d.trailer, strict, "trailer", &ignore) { push(f, &format!("{}-restores", tag), df); }
@@ -843,7 +984,7 @@ fn case_json(c: &Case, obligation: &str) -> Value {
 }
 
 /// decrypt `enc` (a clone) with a password that must be accepted and compare with the original
-fn expect_decrypts(h: &Handler, orig: &Document, enc: &Document, enc_id: Option<(u32, u16)>, pw: &str, strict: bool, tag: &str, f: &mut Fails) {
+fn expect_decrypts(h: &Handler, orig: &Document, pre: Option<&Document>, enc: &Document, enc_id: Option<(u32, u16)>, pw: &str, strict: bool, tag: &str, f: &mut Fails) {
     // the quantifier names passwords longer than 127 bytes (the truncation limit of revisions 5 and 6) as a class of its own
     // and, among those, the passwords whose 128th byte (the first one cut off) lies inside a multi-byte character
     let split = !h.legacy() && pw.len() > 127 && !pw.is_char_boundary(127);
@@ -859,7 +1000,7 @@ fn expect_decrypts(h: &Handler, orig: &Document, enc: &Document, enc_id: Option<
         // same obligation as a wrong result: with a wrongly derived key the library answers Err (bad AES padding) or Ok with garbage
         // depending on random IV bytes, the case must fail under one stable name
         Ok(Err(e)) => push(f, &format!("{}-restores", tag), format!("decrypt with the correct password failed: {}{}", e, class)),
-        Ok(Ok(())) => check_restored(orig, &d, enc_id, strict, tag, f),
+        Ok(Ok(())) => check_restored(orig, pre, &d, enc_id, strict, tag, f),
     }
 }
 
@@ -929,7 +1070,7 @@ fn short(s: &str) -> String { if s.chars().count() > 40 { format!("{}..({} bytes
 fn check_case(c: &Case, state: Option<&EncryptionState>, formats: &[bool]) -> Fails {
     let mut f: Fails = vec![];
     let h = c.h;
-    let orig = match build_doc(c.doc) {
+    let (orig, pre) = match build_doc(c.doc) {
         Ok(d) => d,
         Err(e) => { push(&mut f, "precondition-file-loads", e); return f; }
     };
@@ -979,7 +1120,7 @@ fn check_case(c: &Case, state: Option<&EncryptionState>, formats: &[bool]) -> Fa
     for (id, o) in &orig.objects {
         match enc.objects.get(id) {
             None => push(&mut f, "non-string-unchanged", format!("object {} {} disappeared in encrypt", id.0, id.1)),
-            Some(e) => walk_enc(h, o, e, Ctx { in_stream_dict: false, in_meta_dict: false }, &obj_path(id, o), &mut f),
+            Some(e) => walk_enc(h, o, e, Ctx { in_stream_dict: false, in_meta_dict: false, in_clear_meta_stream_dict: false }, &obj_path(id, o), &mut f),
         }
     }
     if enc.objects.len() != orig.objects.len() + 1 { push(&mut f, "non-string-unchanged", format!("encrypt changed the number of objects from {} to {}", orig.objects.len(), enc.objects.len())); }
@@ -987,8 +1128,9 @@ fn check_case(c: &Case, state: Option<&EncryptionState>, formats: &[bool]) -> Fa
     // Revisions 2-4 (Algorithm 3): "if there is no owner password, use the user password instead" - an empty owner
     // password is no owner password, so the password that opens the document as owner is the user password.
     let owner_eff: &str = if h.legacy() && c.owner.is_empty() { c.user } else { c.owner };
-    expect_decrypts(h, &orig, &enc, enc_id, c.user, true, "mem-user", &mut f);
-    expect_decrypts(h, &orig, &enc, enc_id, owner_eff, true, "mem-owner", &mut f);
+    let pre = pre.as_ref();
+    expect_decrypts(h, &orig, pre, &enc, enc_id, c.user, true, "mem-user", &mut f);
+    expect_decrypts(h, &orig, pre, &enc, enc_id, owner_eff, true, "mem-owner", &mut f);
     expect_rejects(h, &enc, c.user, owner_eff, "mem", &mut f);
     // 5. through save + load
     if c.doc.reload {
@@ -1015,14 +1157,14 @@ fn check_case(c: &Case, state: Option<&EncryptionState>, formats: &[bool]) -> Fa
             let is_enc = loaded.trailer.get(b"Encrypt").is_ok();
             if expect_auto {
                 if is_enc { push(&mut f, "reload-auto-decrypt", "the empty password is the user or owner password but the loader left the document encrypted".into()); }
-                else { check_restored(&orig, &loaded, enc_id, false, "reload-auto", &mut f); }
+                else { check_restored(&orig, pre, &loaded, enc_id, false, "reload-auto", &mut f); }
             } else if !is_enc {
                 let nl = h.legacy() && (strip_nonlatin(c.user).is_empty() || strip_nonlatin(owner_eff).is_empty());
                 push(&mut f, if nl { "reload-stays-encrypted-nonlatin" } else { "reload-stays-encrypted" },
                      format!("neither password is empty (user {:?}, owner {:?}) but the loader decrypted the file without a password", short(c.user), short(owner_eff)));
             } else {
-                expect_decrypts(h, &orig, &loaded, enc_id, c.user, false, "reload-user", &mut f);
-                expect_decrypts(h, &orig, &loaded, enc_id, owner_eff, false, "reload-owner", &mut f);
+                expect_decrypts(h, &orig, pre, &loaded, enc_id, c.user, false, "reload-user", &mut f);
+                expect_decrypts(h, &orig, pre, &loaded, enc_id, owner_eff, false, "reload-owner", &mut f);
                 expect_rejects(h, &loaded, c.user, owner_eff, tag, &mut f);
             }
         }
@@ -1037,7 +1179,7 @@ fn check_case(c: &Case, state: Option<&EncryptionState>, formats: &[bool]) -> Fa
 #[derive(Clone, Copy, PartialEq)]
 enum DocSel { All, Core, Lit, Pairs }
 
-struct Config { h: Handler, user: String, owner: String, sel: DocSel, ids: &'static [(u32, u16)], both_formats: bool, all_layouts: bool }
+struct Config { h: Handler, user: String, owner: String, sel: DocSel, ids: &'static [(u32, u16)], both_formats: bool, all_layouts: bool, anchor: bool, edits: bool }
 
 /// the documents used with every password pair under V5 (whose password hash, ISO algorithm 2.B, costs about a millisecond per evaluation)
 fn is_core(d: &DocS) -> bool { d.label == "full" || d.label == "single:lit-33@7.3" || d.label == "file:objstm/full" }
@@ -1047,9 +1189,9 @@ struct CaseOut { nontrivial: bool, fails: Vec<(String, String, Value)>, sample: 
 fn run_config(cfg: &Config) -> Vec<CaseOut> {
     let docs: Vec<DocS> = match cfg.sel {
         DocSel::Pairs => docs_b(&cfg.h),
-        DocSel::All => docs_a(&cfg.h, cfg.ids, cfg.all_layouts),
-        DocSel::Core => docs_a(&cfg.h, cfg.ids, cfg.all_layouts).into_iter().filter(is_core).collect(),
-        DocSel::Lit => docs_a(&cfg.h, cfg.ids, cfg.all_layouts).into_iter().filter(|d| d.label == "single:lit-33@7.3").collect(),
+        DocSel::All => docs_a(&cfg.h, cfg.ids, cfg.all_layouts, cfg.anchor, cfg.edits),
+        DocSel::Core => docs_a(&cfg.h, cfg.ids, cfg.all_layouts, cfg.anchor, cfg.edits).into_iter().filter(is_core).collect(),
+        DocSel::Lit => docs_a(&cfg.h, cfg.ids, cfg.all_layouts, cfg.anchor, cfg.edits).into_iter().filter(|d| d.label == "single:lit-33@7.3").collect(),
     };
     // R5/V5 states do not depend on the document: build once (the key-derivation hash is the expensive part)
     let shared = if cfg.h.legacy() { None } else { catch(|| make_state(&cfg.h, &Document::with_version("1.7"), &cfg.user, &cfg.owner)).ok().and_then(|r| r.ok()) };
@@ -1059,7 +1201,7 @@ fn run_config(cfg: &Config) -> Vec<CaseOut> {
         let both = [false, true];
         let fm: &[bool] = if d.label.starts_with("full") { &both } else { formats };
         let fails = check_case(&c, shared.as_ref(), fm);
-        let nontrivial = d.objects.iter().any(|(_, o)| has_payload(o));
+        let nontrivial = d.objects.iter().any(|(_, o)| has_payload(o)) || !d.edit.is_empty();
         CaseOut {
             nontrivial,
             fails: fails.into_iter().map(|(ob, det)| { let j = case_json(&c, &ob); (ob, det, j) }).collect(),
@@ -1095,7 +1237,7 @@ fn configs(thorough: bool) -> Vec<Config> {
                 // thorough: the full cross product except for V5; quick: password dimension on the core documents, document dimension on the anchor configuration
                 let sel = if anchor { DocSel::All } else if thorough { if v5 { DocSel::Core } else { DocSel::All } } else if v5 { DocSel::Lit } else { DocSel::Core };
                 let ids = if thorough && !v5 { SINGLE_IDS_THOROUGH } else { SINGLE_IDS_QUICK };
-                out.push(Config { h, user: u.clone(), owner: o.clone(), sel, ids, both_formats: thorough && !v5, all_layouts: thorough && u == "user" && o == "owner" });
+                out.push(Config { h, user: u.clone(), owner: o.clone(), sel, ids, both_formats: thorough && !v5, all_layouts: thorough && u == "user" && o == "owner", anchor, edits: p == PERM_ALL });
             }
         }
     }
@@ -1110,7 +1252,7 @@ fn configs(thorough: bool) -> Vec<Config> {
             for (u, o) in &bps {
                 let mut h = h0.clone();
                 h.perms = p;
-                out.push(Config { h, user: u.clone(), owner: o.clone(), sel: if v5 { DocSel::Lit } else { DocSel::Core }, ids: SINGLE_IDS_QUICK, both_formats: false, all_layouts: false });
+                out.push(Config { h, user: u.clone(), owner: o.clone(), sel: if v5 { DocSel::Lit } else { DocSel::Core }, ids: SINGLE_IDS_QUICK, both_formats: false, all_layouts: false, anchor: false, edits: false });
             }
         }
     }
@@ -1121,7 +1263,7 @@ fn configs(thorough: bool) -> Vec<Config> {
             if v5 && !(h0.em && h0.stm == "StdCF" && h0.strf == "StdCF") { continue; }
             let mut h = h0.clone();
             h.perms = PERM_ALL;
-            out.push(Config { h, user: "user".into(), owner: "owner".into(), sel: DocSel::Pairs, ids: SINGLE_IDS_QUICK, both_formats: !v5, all_layouts: false });
+            out.push(Config { h, user: "user".into(), owner: "owner".into(), sel: DocSel::Pairs, ids: SINGLE_IDS_QUICK, both_formats: !v5, all_layouts: false, anchor: false, edits: false });
         }
     }
     out
@@ -1137,17 +1279,26 @@ for w in {2 (U+043F), 3 (U+65E5), 4 (U+20000)} (all unchanged by SASLprep), laid
 otherwise inside one), ending with that character (tail 0, 127+w-phase bytes) or 5 characters later (tail 5); plus the 127-byte password of each width (nothing cut off). \
 Quick, 18 pairs: per w the 127-byte pair; per (w, phase) (user tail 0, owner tail 5); per w (user phase 1 tail 0, \"owner\") and (\"user\", owner phase w-1 tail 0). \
 Thorough, 39 pairs: per w the 127-byte pair; per (w, phase) (user tail 0, owner tail 5), (user tail 5, owner tail 0), (user tail 0, \"owner\"), (\"user\", owner tail 0). \
-DOCUMENTS: each object of an alphabet of 30 (V1,V2), 32 (R5,V5) or 34 (V4) objects alone at id 7 3 (thorough, not V5: at each of 1 0, 7 3, 300 65535): empty/5/15/16/17/33-byte literal and hex strings, \
+DOCUMENTS: each object of an alphabet of 38 (V1,V2), 41 (R5,V5) or 44 (V4) objects alone at id 7 3 (thorough, not V5: at each of 1 0, 7 3, 300 65535): empty/5/15/16/17/33-byte literal and hex strings, \
 strings nested in arrays and dictionaries to depth 3 beside names, numbers, null and (dangling) references, empty/5/15/16/300-byte binary streams, Metadata stream (also empty), stream with a string in its dictionary, \
 plain dictionaries of /Type /Metadata (top level and nested), XRef-typed stream, \
 objects typed as file structure that a loaded document keeps: /Type /ObjStm streams (a well-formed object stream of 2 objects with strings, stored and Flate-compressed; the empty one with /N 0; one with 40 arbitrary bytes and no /N /First) and a dictionary with a /Linearized key holding a string, \
 streams with /Filter /Crypt (name and array form) and DecodeParms /Name = each CF name (also with empty content) / missing / unknown / no DecodeParms; \
+STREAM DICTIONARY x STREAM CLASS: one stream of every class of the rule that governs stream data - default filter (the 300-byte stream), Metadata stream (exempt iff EncryptMetadata is false), XRef-typed stream (exempt), \
+well-formed object stream, /Crypt override with /Name = each CF name / missing / unknown / no DecodeParms - again with strings in its dictionary: a 30-byte literal string under /Note and, under /Notes, an array holding an 18-byte hex string and a dictionary with a 21-byte and an empty string \
+(expected: encrypted with StrF and restored like every other string whatever happens to the stream data; in the XRef-typed stream: untouched; a string left in clear in the dictionary of a clear Metadata stream is reported as metadata-stream-dict-string-encrypted); \
 one string at id 16777221 1 (memory only); the document holding the whole alphabet at sparse ids with generations 0 and 2 (R5/V5: also without /ID). \
 PROVENANCE of the document (built = the objects are inserted into a fresh Document; file:<layout> = the harness writes a PDF 1.5 file with its own serializer and the ORIGINAL is what Document::load_mem returns for it, \
 so it keeps the file's object streams and cross-reference stream as objects, compressed entries in reference_table and the cross-reference stream's keys in the trailer; a failed or lossy load is reported as precondition-file-loads): \
 layouts {table (classic cross-reference table), xrefstm (cross-reference stream, W [1 4 2], /Index by runs), objstm (+ every non-stream object of generation 0 in one object stream numbered after the highest id), \
 objstm-flate (that object stream Flate-compressed), objstm-x2 (those objects alternating over two object streams)}. File documents: the whole-alphabet document in each of the 5 layouts (R5/V5: also without /ID in layout objstm), \
 each alphabet object alone at id 7 0 in layout objstm (thorough, password pair (user, owner): in each of the 5 layouts). All other documents are built. \
+HISTORY of the document (what happened between load and encrypt; the ORIGINAL of the round trip is the document as it is right before encrypt, so an edited object must come back as edited, a removed object must stay removed, an added one must stay; \
+an edit works on the objects that are not file structure, k = 0, 1, .. in id order): edits {strings (every string of every object, stream dictionaries included, becomes \"edited:\" + its bytes reversed, every stream content likewise), \
+strings-alt (the same for the objects of odd k only), replace (every object of even k becomes a new dictionary holding a string), delete (every object with k divisible by 3 is removed from Document::objects), add (two Document::add_object calls: a dictionary with strings, a stream with a string in its dictionary)}. \
+Edited documents (only with the permission set `all`: the permission word takes no part in what encrypt and decrypt do to an object): the whole-alphabet document loaded from file:objstm with each of the 5 edits (password pair (user, owner): from each of the 5 layouts); \
+thorough, (user, owner): also each alphabet object alone at id 7 0 loaded from file:objstm with the edits strings and replace. \
+A wrongly restored object that equals its state before the edit is reported as <mem|reload>-edit-reverted, a removed object that is back as ...-deleted-object-back. \
 QUICK = handlers x permissions (V5: all only) x shared passwords x {33-byte string alone, whole-alphabet document built, whole-alphabet document from file:objstm} (V5: string only)  UNION  handlers x {all} x {(user, owner)} x all documents  UNION  \
 {R5, V5 handlers} x permissions (V5: all only) x boundary passwords x {33-byte string alone, whole-alphabet document built and from file:objstm} (V5: string only). \
 THOROUGH = handlers x permissions x shared passwords x all documents (V5, whose password hash costs ~1.5 ms: x {string alone, whole-alphabet document built and from file:objstm}, plus {all} x {(user, owner)} x all documents)  UNION  \
@@ -1159,7 +1310,7 @@ R5/V5: also each password of more than 127 bytes whose byte 127 lies inside a ch
 save (xref table; built whole-alphabet document and thorough except V5: also xref stream) + load_mem + the same decrypts, or the auto-decrypt expectation when the user or owner password is empty. \
 In memory every object of the original, file-structure objects included, must come back (a Flate-compressed object stream that comes back decoded is reported as mem-compressed-objstm-restored); \
 after save + load the objects typed ObjStm / XRef / Linearized, which no writer carries over, are not compared. \
-NOT ENUMERATED: files with incremental updates, hybrid-reference files, linearized files, object streams with /Extends, files loaded with a filter function, documents already encrypted in the file (their round trip starts with decrypt), documents whose max_id is below an existing id, passwords that SASLprep prohibits or changes (where the 127-byte cut falls elsewhere in the prepared form than in the given one), boundary passwords mixing character widths, documents without /ID under V1-V4 (the key derivation needs it), incremental saves";
+NOT ENUMERATED: edits of built documents (they give documents of the built family), edits of file-structure objects (ObjStm / XRef streams, reference_table), sequences of more than one edit, edits crossed with the boundary password pairs or with a permission set other than `all` (quick: nor with the shared password pairs other than (user, owner)), Metadata streams with dictionary strings in documents with more than one Metadata stream, files with incremental updates, hybrid-reference files, linearized files, object streams with /Extends, files loaded with a filter function, documents already encrypted in the file (their round trip starts with decrypt), documents whose max_id is below an existing id, passwords that SASLprep prohibits or changes (where the 127-byte cut falls elsewhere in the prepared form than in the given one), boundary passwords mixing character widths, documents without /ID under V1-V4 (the key derivation needs it), incremental saves";
 
 pub fn run(thorough: bool) -> Report {
     let mut rep = Report::new(BOUND, true);
